@@ -282,8 +282,14 @@ class RoundTrip(Monitor):
                           replay_alg('roundtrip', [full_params(sig)], sources=with_sources))
             return
         ctx.nontrivial(('roundtrip', bparams(sig), with_sources))
+        # (the law is stated with ==: whatever Signature.__eq__ looks at -- upgraded annotations, the upgraded
+        # return annotation -- takes part; an == that raises, e.g. NameError of an unevaluable annotation, decides nothing)
+        try:
+            really_equal = bool(back == sig) and not bool(back != sig)
+        except Exception:
+            really_equal = True
         if not meta_equal(meta(back), meta(sig)) or not _ret_equal(back, sig) or \
-                src_exact(back) != src_exact(sig):
+                src_exact(back) != src_exact(sig) or not really_equal:
             ctx.violation('C09', 'RoundTrip', 'law-roundtrip',
                           'apply_params(s, *sort_params(s)) differs from s',
                           {'input': show(sig), 'result': show(back),
